@@ -124,6 +124,12 @@ func (c *fRegistryImpl) dispatch(opid uint64, frame []byte) error {
 	}
 	c.mu.RUnlock()
 
-	resultC <- frame
+	select {
+	case resultC <- frame:
+	default:
+		// The request already has an undelivered response buffered (duplicate
+		// response) or its caller is gone; never block the inbound path.
+		logger().Warn("frugal: dropping frame, response already delivered for this context")
+	}
 	return nil
 }
